@@ -462,7 +462,8 @@ public:
 	    \param ignore bytes to ignore counting back from end of message
 	    \param permissive_mode if true, ignore unknown fields
 	    \return number of bytes consumed */
-	F8API unsigned decode(const f8String& from, unsigned offset, unsigned ignore=0, bool permissive_mode=false);
+	F8API unsigned decode(const f8String& from, unsigned offset, unsigned ignore=0, bool permissive_mode=false,
+		bool keep_trailing_unknown=false);
 
 	/*! Decode repeating group from string using nested group method
 	    \param grpbase pointer to groupbase of holding object
@@ -472,7 +473,7 @@ public:
 	    \param ignore bytes to ignore counting back from end of message
 	    \return number of bytes consumed */
 	unsigned decode_group(GroupBase *grpbase, const unsigned short fnum, const f8String& from,
-		unsigned s_offset, unsigned ignore);
+		unsigned s_offset, unsigned ignore, bool permissive_mode=false);
 
 	/*! Encode message to stream.
 	    \param to stream to encode to
@@ -1127,7 +1128,7 @@ public:
 		_payload_len = blen;
 		_rawmsg = from;
 #endif
-		return _trailer->decode(from, blen, ignore, permissive_mode);
+		return _trailer->decode(from, blen, ignore, permissive_mode, true); // the trailer keeps trailing unknown fields
 	}
 
 	/*! Encode message to stream.
